@@ -10,6 +10,7 @@ CONSTANTS
   CloseKinds = ${CloseKinds}
   MaxCalls = ${MaxCalls}
   Strict = ${Strict}
+  EagerPark = FALSE
   Allowed <- MCAllowed
   Budget <- MCBudget
 SPECIFICATION FairSpec
